@@ -146,3 +146,27 @@ fn c13_truncated() {
     wit!(n == 3);
     core::mem::forget(r);
 }
+
+/// Truncation inside the zone list of the LAST azimuth segment: one declared segment whose azimuth
+/// 359 declares two zones; the body is cut somewhere inside those last 8 bytes.
+#[kani::proof]
+#[kani::unwind(362)]
+#[kani::stub(alloc::fmt::format, crate::stubs::fmt_format)]
+fn c13_truncated_last_zones() {
+    let mut b = [0u8; 726 + 8];
+    b[5] = 1;
+    b[6 + 2 * 359 + 1] = 2; // azimuth 359 declares two zones
+    let z: [u8; 8] = kani::any();
+    let mut i = 0;
+    while i < 8 {
+        b[726 + i] = z[i];
+        i += 1;
+    }
+    let n: usize = kani::any();
+    kani::assume(n >= 726 && n <= 734);
+    let r = decode_clutter_filter_map(&mut &b[..n]);
+    assert!(r.is_ok() == (n == 734), "C13: a body cut inside the last zone list must be an error");
+    wit!(n == 733);
+    wit!(n == 734);
+    core::mem::forget(r);
+}
